@@ -3,9 +3,9 @@ package props
 import (
 	"fmt"
 	"os"
-	"time"
 	"strings"
 	"testing"
+	"time"
 
 	"verif/harness/eng"
 	"verif/harness/evid"
